@@ -1,5 +1,5 @@
 From Coq Require Extraction ExtrOcamlBasic.
-From OxiVerif Require Import Base.Conv DD.Table DD.TableExtra DD.Sem Num.I64 DD.FamSpec DD.ZbddOps DD.ZbddVars Mgr.SortOrder Mgr.LevelSwap Mgr.LevelSwapC Mgr.LevelSwapZ DD.BuildCanon Mgr.Conc Mgr.ConcGc Mgr.Terminals.
+From OxiVerif Require Import Base.Conv DD.Table DD.TableExtra DD.Sem Num.I64 DD.FamSpec DD.ZbddOps DD.ZbddVars Mgr.SortOrder Mgr.LevelSwap Mgr.LevelSwapC Mgr.LevelSwapZ Mgr.LevelSwapT DD.BuildCanon Mgr.Conc Mgr.ConcGc Mgr.Terminals.
 Extraction Language OCaml.
 Extraction "model.ml" conv_anchor
   Table.sem_edge Table.wf_b TableExtra.terms_kind_b TableExtra.wf_full_b Table.perm_inverse_b Table.node_ok_b Table.unique_nodes_b
@@ -16,6 +16,7 @@ Extraction "model.ml" conv_anchor
   LevelSwap.level_swap LevelSwap.set_var_order_model SortOrder.sort_order SortOrder.bubble_sort
   LevelSwapC.level_swap_c LevelSwapC.set_var_order_model_c
   LevelSwapZ.level_swap_zc LevelSwapZ.zchain_ids LevelSwapZ.zchain_drop LevelSwapZ.zchain_rebuild LevelSwapZ.level_swap_z LevelSwapZ.set_var_order_model_z
+  LevelSwapT.level_swap_t LevelSwapT.set_var_order_model_t
   BuildCanon.build_kind BuildCanon.lvl_fun BuildCanon.canonical_count BuildCanon.cfun_of BuildCanon.bool_kind_ok_b BuildCanon.canon_size_bdd BuildCanon.canon_size_bcdd BuildCanon.canon_size_zbdd
   Terminals.lift_st Terminals.collect_term_survivors Terminals.collect_node_survivors Terminals.tstep Terminals.tcollect
   Terminals.minv_b Terminals.tcollect_count Terminals.tgc_count Terminals.get_outcome Terminals.tlen
